@@ -1,19 +1,14 @@
 ----------------------------- MODULE JqMatch -----------------------------
-(* match expressions (DESIGN.md 4.7 MatchExpr, property C19).              *)
-(* Structured like src/evaluator.go: MatchPat = one pattern against one    *)
-(* value (evalCaseMatch on a one-element list), MatchAlts = the loop over  *)
-(* the comma-separated alternatives of a case (evalCaseMatch), MatchExpr = *)
-(* the loop over the cases and the evaluation of the selected body (the    *)
-(* ExprMatch arm of evalExpr).                                             *)
-(*                                                                          *)
-(* Open point (statement silent): a literal pattern against an array is a  *)
-(* comparison `array == literal`, which is a runtime error for `==`.  Three *)
-(* readings are admitted: "lenient" (simply no match), "short" (error,     *)
-(* positions of an array pattern compared left to right, stopping at the   *)
-(* first mismatch or error), "eager" (error if any position errs).         *)
-(*                                                                          *)
-(* Named deviation match-array-alt-stops (F16): a failing ARRAY pattern    *)
-(* ends its case instead of moving on to the next alternative.             *)
+(* match expressions (DESIGN.md 4.7 MatchExpr, property C19) over abstract *)
+(* scalars: the values, the comparison `v == literal` on them, the bodies   *)
+(* of the model and the whole expression.  The matcher itself (MatchPat =   *)
+(* one pattern against one value, MatchAlts = the alternatives of a case,   *)
+(* SelectFrom = the loop over the cases; the three readings of "array       *)
+(* against a literal"; the named deviation match-array-alt-stops, F16) is   *)
+(* JqMatchCore, instantiated here with LitCmp; MatchExpr adds the           *)
+(* evaluation of the selected body (the ExprMatch arm of evalExpr).         *)
+(* JqMatchLit instantiates the same matcher for literal patterns as         *)
+(* written in the source (escapes, number spellings, full `==`).            *)
 EXTENDS JqUtil
 
 \* ---- values (uniform records so that TLC can compare any two)
@@ -34,50 +29,11 @@ LitCmp(v, lit) ==
   ELSE IF v.k = "str" /\ lit.k = "str" THEN (IF v.s = lit.s THEN "eq" ELSE "ne")
   ELSE IF NumOf(v) = NumOf(lit) THEN "eq" ELSE "ne"
 
-\* ---- patterns
-PLit(v)    == [t |-> "lit", v |-> v,    name |-> "",   items |-> <<>>]
-PId(name)  == [t |-> "id",  v |-> Null, name |-> name, items |-> <<>>]
-PArr(ps)   == [t |-> "arr", v |-> Null, name |-> "",   items |-> ps]
-
-Readings == {"lenient", "short", "eager"}
-
-Yes(b) == [m |-> "yes", b |-> b]     \* b: bindings, a sequence of <<name, value>>
-No     == [m |-> "no",  b |-> <<>>]
-Err    == [m |-> "err", b |-> <<>>]
-
-RECURSIVE MatchPat(_, _, _)
-MatchPat(v, p, rd) ==
-  IF p.t = "lit" THEN
-    LET c == LitCmp(v, p.v) IN
-    IF c = "eq" THEN Yes(<<>>)
-    ELSE IF c = "ne" THEN No
-    ELSE IF rd = "lenient" THEN No ELSE Err
-  ELSE IF p.t = "id" THEN Yes(<< <<p.name, v>> >>)
-  ELSE IF v.k # "arr" \/ Len(v.a) # Len(p.items) THEN No
-  ELSE
-    LET n == Len(p.items)
-        rs == [i \in 1..n |-> MatchPat(v.a[i], p.items[i], rd)]
-        bad == {i \in 1..n : rs[i].m # "yes"}
-    IN IF bad = {} THEN Yes(FlattenSeq([i \in 1..n |-> rs[i].b]))
-       ELSE IF rd = "short" THEN [m |-> rs[SetMin(bad)].m, b |-> <<>>]
-       ELSE IF \E i \in bad : rs[i].m = "err" THEN Err ELSE No
-
-\* the alternatives of one case, in order.  Result: [m, b, alt] (alt = index of
-\* the matching alternative, 0 if none)
-RECURSIVE MatchAlts(_, _, _, _, _)
-MatchAlts(v, alts, i, rd, devs) ==
-  IF i > Len(alts) THEN [m |-> "no", b |-> <<>>, alt |-> 0]
-  ELSE
-    LET r == MatchPat(v, alts[i], rd) IN
-    IF r.m = "yes" THEN [m |-> "yes", b |-> r.b, alt |-> i]
-    ELSE IF r.m = "err" THEN [m |-> "err", b |-> <<>>, alt |-> i]
-    ELSE IF "match-array-alt-stops" \in devs /\ alts[i].t = "arr"
-         THEN [m |-> "no", b |-> <<>>, alt |-> 0]            \* deviation: `return false`
-    ELSE MatchAlts(v, alts, i + 1, rd, devs)
-
-Lookup(b, name) ==
-  LET S == {i \in 1..Len(b) : b[i][1] = name} IN b[SetMax(S)][2]
-Bound(b) == {b[i][1] : i \in 1..Len(b)}
+\* ---- the matcher: JqMatchCore with this comparison
+INSTANCE JqMatchCore WITH LitCmp <- LitCmp
+PLit(v)    == PLitOf(v)
+PId(name)  == PIdOf(name, Null)
+PArr(ps)   == PArrOf(ps, Null)
 
 \* The match expressions of the model sit in a program whose globals x, y, u are
 \* preset to the strings gx, gy, gu.  A name in a body denotes the binding made
@@ -108,19 +64,15 @@ BodyVal(body, k, b) ==
 
 \* ---- the match expression.  Outcome:
 \*   [cls: "ok" | "runtime", sel: selected case (0 none), alt, val, trace, blk]
-RECURSIVE MatchFrom(_, _, _, _, _)
 MatchFrom(v, cases, k, rd, devs) ==
-  IF k > Len(cases)
+  LET r == SelectFrom(v, cases, k, rd, devs) IN
+  IF r.m = "no"
   THEN [cls |-> "ok", sel |-> 0, alt |-> 0, val |-> Null, trace |-> <<>>, blk |-> FALSE]
-  ELSE
-    LET r == MatchAlts(v, cases[k].alts, 1, rd, devs) IN
-    IF r.m = "err"
-    THEN [cls |-> "runtime", sel |-> k, alt |-> r.alt, val |-> Null, trace |-> <<>>, blk |-> FALSE]
-    ELSE IF r.m = "yes"
-    THEN LET bv == BodyVal(cases[k].body, k, r.b)
-         IN [cls |-> "ok", sel |-> k, alt |-> r.alt, val |-> bv.val, trace |-> bv.trace,
-             blk |-> IsBlock(cases[k].body)]
-    ELSE MatchFrom(v, cases, k + 1, rd, devs)
+  ELSE IF r.m = "err"
+  THEN [cls |-> "runtime", sel |-> r.sel, alt |-> r.alt, val |-> Null, trace |-> <<>>, blk |-> FALSE]
+  ELSE LET bv == BodyVal(cases[r.sel].body, r.sel, r.b)
+       IN [cls |-> "ok", sel |-> r.sel, alt |-> r.alt, val |-> bv.val, trace |-> bv.trace,
+           blk |-> IsBlock(cases[r.sel].body)]
 
 MatchExpr(v, cases, rd, devs) == MatchFrom(v, cases, 1, rd, devs)
 
@@ -141,13 +93,6 @@ SameUpToEq(a, b) ==
   THEN Len(a.a) = Len(b.a) /\ \A i \in 1..Len(a.a) : SameUpToEq(a.a[i], b.a[i])
   ELSE IF a.k = "arr" \/ b.k = "arr" THEN FALSE
   ELSE LitCmp(a, b) = "eq"
-
-\* names bound by a pattern, and the (value, literal) comparisons it can make
-RECURSIVE PatNames(_)
-PatNames(p) ==
-  IF p.t = "id" THEN {p.name}
-  ELSE IF p.t = "arr" THEN UNION {PatNames(p.items[i]) : i \in 1..Len(p.items)}
-  ELSE {}
 
 \* does matching v against p compare an array with a non-null literal anywhere
 \* (positions reachable when lengths agree)?
